@@ -54,6 +54,17 @@ def spy_solve():
         mod.solve = orig
 
 
+def exactly_singular_shift(A, M, evals):
+    """finding F30: some shifted matrix A - e_i M has an exactly zero LU pivot (eigenpairs that are exactly representable,
+    e.g. a diagonal A): the implicit backward hands it to torch.linalg.solve, which raises"""
+    A = A.detach()
+    M = torch.eye(A.shape[-1], dtype=A.dtype) if M is None else M.detach()
+    for e in evals.detach().reshape(-1).tolist():
+        if int(torch.linalg.lu_factor_ex(A - e * M).info.abs().max()) != 0:
+            return True
+    return False
+
+
 def herm(t):
     return (t + t.transpose(-2, -1).conj()) / 2
 
@@ -70,7 +81,9 @@ def tie_implicit(ctx, cases, meta):
         n = rng.randrange(2, 7)
         useM = rng.random() < 0.5
         mode = rng.choice(["lowest", "uppest"])
-        fam = rng.choice(["random", "random", "degenerate", "mixed-sign-degenerate"])
+        fam = rng.choice(["random", "random", "degenerate", "mixed-sign-degenerate", "degenerate-at-zero"])
+        if fam == "degenerate-at-zero" and n < 4:
+            fam = "degenerate"           # n <= 3 would make A the zero matrix (finding F30, probed separately)
         if fam == "random":
             A, M = rsym(g, n, (), dtype), (rspd(g, n, (), dtype) if useM else None)
             neig = rng.randrange(1, n + 1)
@@ -126,7 +139,7 @@ def tie_dense(ctx, cases, meta):
         cplx = rng.random() < 0.3
         dtype = CT if cplx else DT
         n = rng.randrange(1, 7)
-        fam = rng.choice(["random", "random", "degenerate"])
+        fam = rng.choice(["random", "random", "degenerate", "degenerate-at-zero"])
         A = rsym(g, n, (), dtype) if fam == "random" else planted(g, n, SPECTRA[fam](n), (), dtype, False)[0]
         A = A.clone().requires_grad_()
         info = {"path": "dense", "n": n, "complex": cplx, "family": fam, "A": str(A.tolist())}
@@ -255,7 +268,9 @@ def oracle(ctx):
         useM = rng.random() < 0.5
         kind = rng.choice(["dense", "mf"])
         lowest = rng.random() < 0.5
-        fam = rng.choice(["random", "random", "degenerate", "mixed-sign-degenerate"])
+        fam = rng.choice(["random", "random", "degenerate", "mixed-sign-degenerate", "degenerate-at-zero"])
+        if fam == "degenerate-at-zero" and n < 4:
+            fam = "degenerate"
         batch = rng.choice([(), (), (2,)]) if fam == "random" else ()
         if fam == "random":
             A0, M0 = rsym(g, n, batch, dtype), (rspd(g, n, batch, dtype) if useM else None)
@@ -305,6 +320,13 @@ def oracle(ctx):
             if method == "davidson" and "positive-definite" in msg:
                 ctx.stat("davidson_forward_F27")          # finding F27 of C05 (forward), not a gradient matter
                 continue
+            if method != "exacteig" and "singular" in msg:
+                with torch.no_grad():
+                    A_, M_ = build(torch.zeros(nth, dtype=DT))
+                    e_, _ = dense_pairs(A_, M_, neig, lowest)
+                if exactly_singular_shift(A_, M_, e_):
+                    ctx.fail("oracle", "symeig-grad:implicit:exactly-singular-shifted-system", info, msg[:300], "first-order gradient")
+                    continue
             ctx.fail("oracle", "symeig-grad:%s:exception" % method, info, msg[:300], "first-order gradient")
             continue
         tol = 2e-6 if method == "davidson" else 1e-7
@@ -347,6 +369,20 @@ def oracle(ctx):
                          {"impl": g2.tolist(), "reference": r2.tolist()}, "agree to %g" % tol2)
         elif not torch.isfinite(g2).all():
             ctx.fail("oracle", "symeig-grad:second-order:%s:degenerate:nonfinite" % method, info, g2.tolist(), "finite")
+    # ---- finding F30: exactly representable eigenpairs (a diagonal, non-degenerate matrix) ----
+    Ad_ = torch.diag(torch.tensor([1.0, 2.0, 3.0], dtype=DT)).requires_grad_()
+    ctx.count(("F30-probe",))
+    try:
+        with warnings.catch_warnings():
+            warnings.simplefilter("ignore")
+            e_, X_ = symeig(xt.LinearOperator.m(Ad_, is_hermitian=True), 3, method="custom_exacteig")
+            torch.autograd.grad(e_.sum() + (X_ @ X_.T).sum(), Ad_)
+    except Exception as ex:
+        if "singular" in repr(ex) and exactly_singular_shift(Ad_, None, e_):
+            ctx.fail("oracle", "symeig-grad:implicit:exactly-singular-shifted-system", {"A": "diag(1, 2, 3)", "neig": 3, "method": "custom_exacteig"},
+                     repr(ex)[:200], "first-order gradient")
+        else:
+            ctx.fail("oracle", "symeig-grad:custom_exacteig:exception", {"A": "diag(1, 2, 3)"}, repr(ex)[:200], "first-order gradient")
     # ---- svd ----
     for rep in range(ctx.n(20, 150)):
         g = gen(rng)
